@@ -349,7 +349,32 @@ func specialTTYMirror(c *specialCtx) {
 			}
 			cs.Items = cs.Items[len(cs.Items)/2:]
 		}
+		// modelCheck: what the real frontend wrote for one explicit call (`out` holds exactly that)
+		// against the model of TTYFrontend applied to the real inner screen, both canonicalised
+		modelCheck := func(where, op string, attachedBefore bool) bool {
+			snapI := vt.Snap()
+			act := 0
+			if snapI.OnAlt {
+				act = 1
+			}
+			want, ok := mirrorModel(d, &snapI.Screens[act], region, fwd.show, true, attachedBefore, op)
+			if !ok {
+				c.violation("tty-model", fmt.Sprintf("%s: the model driver gave no answer for %s", where, op), cs)
+				return false
+			}
+			got := append([]byte(nil), out.Bytes()...)
+			if cg, cw := canonMirror(got), canonMirror(want); !bytes.Equal(cg, cw) {
+				c.violation("tty-model", fmt.Sprintf("%s (%s, region %+v): TTYFrontend wrote %q, the model writes %q (canonical forms %q / %q)", where, op, region, got, want, cg, cw),
+					map[string]any{"case": cs, "region": []int{rx, ry, rx2, ry2}})
+				return false
+			}
+			c.tally("mirror-model-compared:" + strings.SplitN(op, ":", 2)[0])
+			return true
+		}
 		tty.Attach(region)
+		if !modelCheck("attach", "attach", false) {
+			return
+		}
 		// the cursor keeps the visibility the inner terminal last asked for (also while detached)
 		if !compare("attach") {
 			return
@@ -361,6 +386,33 @@ func specialTTYMirror(c *specialCtx) {
 			}
 			if !compare(fmt.Sprintf("item %d %q", step, it.bytes())) {
 				return
+			}
+			switch {
+			case i%2 == 0 && r.chance(1, 2):
+				// a second Attach repaints the whole region from the current state
+				tty.Attach(region)
+				if !modelCheck(fmt.Sprintf("re-attach after item %d", step), "attach", true) || !compare("re-attach") {
+					return
+				}
+			case r.chance(1, 3):
+				// an announcement for an arbitrary rectangle (also reaching beyond the region and the screen)
+				ax, ay := r.intn(w+2), r.intn(h+2)
+				ar := te.Region{X: ax, Y: ay, X2: ax + r.intn(w+3), Y2: ay + r.intn(h+3)}
+				inner.WithLock(func() { tty.RegionChanged(ar, te.CRText) })
+				if !modelCheck(fmt.Sprintf("RegionChanged %+v after item %d", ar, step), fmt.Sprintf("region:%d:%d:%d:%d", ar.X, ar.Y, ar.X2, ar.Y2), true) {
+					return
+				}
+				// such a rectangle may cut a wide character in two (the terminal itself never
+				// announces one that does): the outer terminal then rightly shows blanks there.
+				// It interprets the output, a full repaint brings it back in line.
+				if p := feedAll(outer, out.Bytes()); p != "" {
+					return
+				}
+				out.Reset()
+				tty.Attach(region)
+				if !compare("repaint after RegionChanged") {
+					return
+				}
 			}
 		}
 		tty.Detach()
@@ -376,6 +428,103 @@ func specialTTYMirror(c *specialCtx) {
 			c.sample(fmt.Sprintf("region %+v on %dx%d: %s", region, w, h, cs.String()))
 		}
 	})
+}
+
+// canonMirror brings the output of a TTYFrontend into a canonical form: of every maximal run of
+// SGR sequences only the part from its last `ESC[0m` on counts (a reset clears whatever came
+// before), and a run of SGR sequences that repeats the one in force since the last cursor
+// positioning is dropped when text follows it (the code writes the full escape in front of every
+// span StyledLine returns, the model once per maximal run of equal attributes).
+func canonMirror(b []byte) []byte {
+	type tok struct {
+		sgr, csi bool
+		b        []byte
+	}
+	var toks []tok
+	for i := 0; i < len(b); {
+		if b[i] == 0x1b && i+1 < len(b) && b[i+1] == '[' {
+			j := i + 2
+			for j < len(b) && !(b[j] >= 0x40 && b[j] <= 0x7e) {
+				j++
+			}
+			if j < len(b) {
+				j++
+			}
+			toks = append(toks, tok{sgr: b[j-1] == 'm', csi: true, b: b[i:j]})
+			i = j
+			continue
+		}
+		j := i
+		for j < len(b) && b[j] != 0x1b {
+			j++
+		}
+		if j == i {
+			j = i + 1
+		}
+		toks = append(toks, tok{b: b[i:j]})
+		i = j
+	}
+	var out []byte
+	var last []byte
+	for i := 0; i < len(toks); {
+		t := toks[i]
+		if !t.sgr {
+			if t.csi {
+				last = nil
+			}
+			out = append(out, t.b...)
+			i++
+			continue
+		}
+		j := i
+		var grp []byte
+		for j < len(toks) && toks[j].sgr {
+			if string(toks[j].b) == "\x1b[0m" {
+				grp = grp[:0]
+			}
+			grp = append(grp, toks[j].b...)
+			j++
+		}
+		textFollows := j < len(toks) && !toks[j].csi
+		if textFollows && last != nil && bytes.Equal(last, grp) {
+			// the same attributes are already in force
+		} else {
+			out = append(out, grp...)
+		}
+		if textFollows {
+			last = append([]byte(nil), grp...)
+		} else {
+			last = nil
+		}
+		i = j
+	}
+	return out
+}
+
+// mirrorRows: the rows of a real screen in the form the driver's `mirror` command reads.
+func mirrorRows(s *te.VerifScreen) string {
+	parts := make([]string, len(s.Rows))
+	for y := range s.Rows {
+		r := strings.ReplaceAll(rowString(cellsOfVerif(s.Rows[y].Cells)), " ", "_")
+		if r == "" {
+			r = "-"
+		}
+		parts[y] = r
+	}
+	return strings.Join(parts, "|")
+}
+
+// mirrorModel asks the model of TTYFrontend (lean/TM/Mirror.lean) what `op` writes, given the
+// real inner screen and the frontend's state.
+func mirrorModel(d *driver, s *te.VerifScreen, reg te.Region, show, focused, attached bool, op string) ([]byte, bool) {
+	line := fmt.Sprintf("mirror %d %d %d %d %d %d %d %d %d %d %d %s %s", s.W, s.H, reg.X, reg.Y, reg.X2, reg.Y2, s.CX, s.CY,
+		b2i(show), b2i(focused), b2i(attached), op, mirrorRows(s))
+	ans := strings.TrimSpace(d.ask(line))
+	if ans == "-" {
+		return nil, true
+	}
+	b, err := hex.DecodeString(ans)
+	return b, err == nil
 }
 
 // showCursorSpy forwards everything to the TTYFrontend and remembers what the inner terminal
